@@ -277,6 +277,19 @@ def _value_of(cell_term, hyper: Optional[str]):
     return kw, v, link
 
 
+def _table_driven(loop: ast.For) -> bool:
+    """A _fill_cell call inside a loop nested in the row loop whose column argument is not a constant (cells written from a table of (value, style) pairs)."""
+    for inner in ast.walk(loop):
+        if inner is loop or not isinstance(inner, (ast.For, ast.While)):
+            continue
+        for c in ast.walk(inner):
+            if isinstance(c, ast.Call) and isinstance(c.func, ast.Attribute) and c.func.attr == "_fill_cell" and len(c.args) >= 4 and not isinstance(c.args[2], ast.Constant) and not isinstance(c.args[3], ast.Constant):
+                tgt = {n.id for n in ast.walk(inner.target) if isinstance(n, ast.Name)} if isinstance(inner, ast.For) else set()
+                if any(isinstance(n, ast.Name) and n.id in tgt for n in ast.walk(c.args[2])):
+                    return True
+    return False
+
+
 def check_writer(rep: Report, fr: FullReport, name: str, rule_cols: str, rule_rows: str) -> None:
     spec = SPECS[name]
     fi, loop = fr.writer(name)
@@ -318,6 +331,9 @@ def check_writer(rep: Report, fr: FullReport, name: str, rule_cols: str, rule_ro
         rep.check(fin is not None and tkey(fin) == tkey(want), rule_rows, fi.module, fi.qualname, f"{name}: row advances by exactly one per entry", f"after one iteration of {name} the row is {show(fin) if fin else None}; expected row_index + 1 (rows would overlap or leave gaps)", loc(loop))
         cells = _fill_calls(p)
         rows_ok = all(dict(c[1][2]).get("row_index") == ("sym", "row_index") for c in cells)
+        if not cells and _table_driven(loop):
+            rep.defer_error(f"{loc(loop)}: {name} writes its cells from a nested loop (table-driven row): the row / column rules read one _fill_cell call per column and do not decide this shape")
+            continue
         rep.check(rows_ok and bool(cells), rule_rows, fi.module, fi.qualname, f"{name}: all cells of an entry are written on its own row", f"some cell of {name} is written at a row other than the entry's own (before the advance)", loc(loop))
     from ..stale import check_rows_fresh
 
@@ -381,6 +397,9 @@ def check_writer(rep: Report, fr: FullReport, name: str, rule_cols: str, rule_ro
             if spec.get("hyper") == "summary":
                 ok_l = link is not None and link.get("asset") == ("sym", "asset") and tkey(link.get("year", ("unk", ""))) == tkey(fr.expected("y.year", var))
                 rep.check(ok_l, rule_cols, fi.module, fi.qualname, f"{name}: '{lab}' links to (asset, line's own year)", f"the summary hyperlink of column '{lab}' is keyed by ({show(link.get('asset')) if link else None}, {show(link.get('year')) if link else None}); expected (asset, y.year)", loc(c[2]))
+    if _table_driven(loop):
+        rep.defer_error(f"{loc(loop)}: {name} writes cells whose column is computed in a nested loop: column <-> header agreement not decided for this shape")
+        return
     want_labels = set(spec["cols"])
     have = {l for l, _ in checked}
     for lab in sorted(want_labels - have):
@@ -653,7 +672,7 @@ def _check_float_sink(rep: Report, fr: FullReport) -> None:
     check_cell_sink(rep, r)
     sink = prog.func("rp2.plugin.report.abstract_ods_generator", "AbstractODSGenerator._fill_cell")
     txt = unparse(sink.node)
-    rep.check("isinstance(value, RP2Decimal)" in txt and "value = float(value)" in txt, r, sink.module, sink.qualname, "_fill_cell converts RP2Decimal with float(value) and nothing else", "_fill_cell no longer converts RP2Decimal values by a plain float(value)", loc(sink.node))
+    # (how the sink converts is decided on its paths by check_cell_sink above: value or float(value) under the RP2Decimal test, written once)
 
 
 def _check_legend(rep: Report, fr: FullReport) -> None:
@@ -667,11 +686,27 @@ def _check_legend(rep: Report, fr: FullReport) -> None:
     if len(loops) != 1 or len(gcalls) != 1:
         raise AnalysisError("_rp2_main_internal: engine-building loop or generator call not found")
     it = unparse(loops[0].iter)
-    kw = {k.arg: unparse(k.value) for k in gcalls[0].keywords}
+    from ..loader import call_args
+
+    kw = {p: unparse(v) for p, v in call_args(gcalls[0], prog.func("rp2.rp2_main", "_find_and_run_report_generators").param_names).items()}
     same = it == f"{kw.get('years_2_accounting_method_names')}.items()"
     reassigned = [n for n in ast.walk(main.node) if isinstance(n, (ast.Assign, ast.AnnAssign)) and n.lineno > loops[0].lineno and n.lineno < gcalls[0].lineno and any(isinstance(t, ast.Name) and t.id == kw.get("years_2_accounting_method_names") for t in (n.targets if isinstance(n, ast.Assign) else [n.target]))]
     rep.check(same and not reassigned, r, main.module, main.qualname, "generators receive the method table the engine was built from", f"the engine is built from {it} but the generators receive {kw.get('years_2_accounting_method_names')} (reassigned in between: {bool(reassigned)}): the Legend could state another method than the one used", loc(gcalls[0]))
-    rep.check(kw.get("from_date") == "configuration.from_date" and kw.get("to_date") == "configuration.to_date", r, main.module, main.qualname, "generators receive configuration.from_date / to_date", f"generators receive from_date={kw.get('from_date')}, to_date={kw.get('to_date')}; expected the configuration's own bounds, which compute_tax hands to ComputedData", loc(gcalls[0]))
+    # the two bounds reach generate() either forwarded as arguments from here, or read by the runner from the configuration object it is handed
+    frg_ = prog.func("rp2.rp2_main", "_find_and_run_report_generators")
+    gens_ = [n for n in ast.walk(frg_.node) if isinstance(n, ast.Call) and isinstance(n.func, ast.Attribute) and n.func.attr == "generate"]
+    gkw_ = {p_: unparse(v) for p_, v in call_args(gens_[0], prog.func("rp2.abstract_report_generator", "AbstractReportGenerator.generate").param_names[1:]).items()} if len(gens_) == 1 else {}
+
+    def _bound(p_: str) -> str:
+        v = gkw_.get(p_)
+        if v == p_ and p_ in frg_.param_names:
+            return kw.get(p_) or "?"
+        if v == f"configuration.{p_}" and "configuration" in frg_.param_names:
+            return f"{kw.get('configuration')}.{p_}"
+        return v or "?"
+
+    bounds = {p_: _bound(p_) for p_ in ("from_date", "to_date")}
+    rep.check(bounds == {"from_date": "configuration.from_date", "to_date": "configuration.to_date"}, r, main.module, main.qualname, "generators receive configuration.from_date / to_date", f"generators receive from_date={bounds['from_date']}, to_date={bounds['to_date']}; expected the configuration's own bounds, which compute_tax hands to ComputedData", loc(gcalls[0]))
     te = prog.func("rp2.tax_engine", "compute_tax")
     rets = [n for n in ast.walk(te.node) if isinstance(n, ast.Return) and n.value is not None]
     t = norm.term(rets[0].value, norm.ctx_for(te, subst_locals=False)) if rets else ("unk", "")
@@ -682,14 +717,15 @@ def _check_legend(rep: Report, fr: FullReport) -> None:
     # forwarding through _find_and_run_report_generators and generate -> _initialize_output_file
     frg = prog.func("rp2.rp2_main", "_find_and_run_report_generators")
     gens = [n for n in ast.walk(frg.node) if isinstance(n, ast.Call) and isinstance(n.func, ast.Attribute) and n.func.attr == "generate"]
-    ok = len(gens) == 1 and all({k.arg: unparse(k.value) for k in gens[0].keywords}.get(p) == p for p in ("years_2_accounting_method_names", "from_date", "to_date", "asset_to_computed_data", "country"))
-    rep.check(ok, r, frg.module, frg.qualname, "generate(...) receives the same objects, name-aligned", "generator.generate is not called with years_2_accounting_method_names / from_date / to_date / asset_to_computed_data / country forwarded under their own names", loc(frg.node))
+    gen_params = prog.func("rp2.abstract_report_generator", "AbstractReportGenerator.generate").param_names[1:]
+    ok = len(gens) == 1 and all({p_: unparse(v) for p_, v in call_args(gens[0], gen_params).items()}.get(p) == p for p in ("years_2_accounting_method_names", "asset_to_computed_data", "country"))
+    rep.check(ok, r, frg.module, frg.qualname, "generate(...) receives the same objects, name-aligned", "generator.generate is not called with years_2_accounting_method_names / asset_to_computed_data / country forwarded under their own names", loc(frg.node))
     for mod in prog.package.modules.values():
         if not mod.name.startswith("rp2.plugin.report") or mod.name.endswith("abstract_ods_generator"):
             continue
         for n in ast.walk(mod.tree):
             if isinstance(n, ast.Call) and isinstance(n.func, ast.Attribute) and n.func.attr == "_initialize_output_file":
-                k2 = {k.arg: unparse(k.value) for k in n.keywords}
+                k2 = {p_: unparse(v) for p_, v in call_args(n, prog.func("rp2.plugin.report.abstract_ods_generator", "AbstractODSGenerator._initialize_output_file").param_names[1:]).items()}
                 ok = all(k2.get(p) == p for p in ("years_2_accounting_method_names", "from_date", "to_date"))
                 rep.check(ok, r, mod.name, "Generator.generate", f"{mod.name.split('.')[-1]}: legend inputs forwarded unchanged", f"{mod.name}: _initialize_output_file receives {[(p, k2.get(p)) for p in ('years_2_accounting_method_names', 'from_date', 'to_date')]}; expected the generator's own arguments", loc(n))
     init = prog.func("rp2.plugin.report.abstract_ods_generator", "AbstractODSGenerator._initialize_output_file")
